@@ -122,6 +122,103 @@ Proof.
   - rewrite app_nth2 by nia. f_equal. nia.
 Qed.
 
+Section Comb.
+  Context {A : Type} (d0 : A).
+
+  (** slice axis: per-volume interleave of [j] slices of self with 1 slice of other *)
+  Lemma comb_slice c j nT nV nv (lv ov : list A) :
+    is_slices c = true -> nv = mult_spec (1, nT, nV) c ->
+    length lv = mult_spec (j, nT, nV) c -> length ov = mult_spec (1, nT, nV) c ->
+    length (interleave j 1 nv lv ov) = mult_spec (S j, nT, nV) c /\
+    forall s t v, s < S j -> t < nT -> v < nV ->
+      nth (cidx (S j, nT, nV) c (s, t, v)) (interleave j 1 nv lv ov) d0 =
+      if s <? j then nth (cidx (j, nT, nV) c (s, t, v)) lv d0 else nth (cidx (1, nT, nV) c (0, t, v)) ov d0.
+  Proof.
+    intros Hc -> Hl Ho. destruct c; try discriminate Hc; cbn [mult_spec cidx] in *.
+    - (* GSlices *)
+      split; [rewrite interleave_length; nia|]. intros s t v Hs Ht Hv.
+      assert (Hvol : t + nT * v < 1 * nT * nV) by nia.
+      replace (s + S j * (t + nT * v)) with ((t + nT * v) * (j + 1) + s) by ring.
+      rewrite interleave_nth; try nia. destruct (s <? j) eqn:E.
+      + f_equal; ring.
+      + apply Nat.ltb_ge in E. f_equal; nia.
+    - (* TSlices *)
+      split; [rewrite interleave_length; nia|]. intros s t v Hs Ht Hv.
+      replace s with (0 * (j + 1) + s) at 1 by ring.
+      rewrite interleave_nth; try nia. destruct (s <? j) eqn:E.
+      + f_equal.
+      + apply Nat.ltb_ge in E. f_equal; nia.
+    - (* VSlices *)
+      split; [rewrite interleave_length; nia|]. intros s t v Hs Ht Hv.
+      replace (s + S j * t) with (t * (j + 1) + s) by ring.
+      rewrite interleave_nth; try nia. destruct (s <? j) eqn:E.
+      + f_equal; ring.
+      + apply Nat.ltb_ge in E. f_equal; nia.
+  Qed.
+
+  (** time axis, 4-D result (one vector component): append *)
+  Lemma comb_time4 c j nS (lv ov : list A) :
+    c = TSamples \/ c = GSlices ->
+    length lv = mult_spec (nS, j, 1) c -> length ov = mult_spec (nS, 1, 1) c ->
+    length (lv ++ ov) = mult_spec (nS, S j, 1) c /\
+    forall s t v, s < nS -> t < S j -> v < 1 ->
+      nth (cidx (nS, S j, 1) c (s, t, v)) (lv ++ ov) d0 =
+      if t <? j then nth (cidx (nS, j, 1) c (s, t, v)) lv d0 else nth (cidx (nS, 1, 1) c (s, 0, v)) ov d0.
+  Proof.
+    intros [-> | ->] Hl Ho; cbn [mult_spec cidx] in *.
+    - split; [rewrite app_length; nia|]. intros s t v Hs Ht Hv. assert (v = 0) by lia. subst v.
+      replace (t + S j * 0) with (0 + 1 * t) by ring.
+      rewrite (app_block_nth lv ov 1 j t 0) by lia. destruct (t <? j) eqn:E.
+      + f_equal; ring.
+      + apply Nat.ltb_ge in E. f_equal; nia.
+    - split; [rewrite app_length; nia|]. intros s t v Hs Ht Hv. assert (v = 0) by lia. subst v.
+      replace (s + nS * (t + S j * 0)) with (s + nS * t) by ring.
+      rewrite (app_block_nth lv ov nS j t s) by nia. destruct (t <? j) eqn:E.
+      + f_equal; ring.
+      + apply Nat.ltb_ge in E. f_equal; nia.
+  Qed.
+
+  (** time axis, 5-D result: per-vector interleave of [j] time points of self with 1 of other *)
+  Lemma comb_time5 j nS nV (lv ov : list A) :
+    length lv = mult_spec (nS, j, nV) GSlices -> length ov = mult_spec (nS, 1, nV) GSlices ->
+    length (interleave (nS * j) (nS * 1) nV lv ov) = mult_spec (nS, S j, nV) GSlices /\
+    forall s t v, s < nS -> t < S j -> v < nV ->
+      nth (cidx (nS, S j, nV) GSlices (s, t, v)) (interleave (nS * j) (nS * 1) nV lv ov) d0 =
+      if t <? j then nth (cidx (nS, j, nV) GSlices (s, t, v)) lv d0 else nth (cidx (nS, 1, nV) GSlices (s, 0, v)) ov d0.
+  Proof.
+    intros Hl Ho; cbn [mult_spec cidx] in *.
+    split; [rewrite interleave_length; nia|]. intros s t v Hs Ht Hv.
+    replace (s + nS * (t + S j * v)) with (v * (nS * j + nS * 1) + (s + nS * t)) by ring.
+    rewrite interleave_nth; try nia.
+    destruct (Nat.ltb_spec t j) as [E|E].
+    - replace (s + nS * t <? nS * j) with true by (symmetry; apply Nat.ltb_lt; nia). f_equal; ring.
+    - replace (s + nS * t <? nS * j) with false by (symmetry; apply Nat.ltb_ge; nia). f_equal; nia.
+  Qed.
+
+  (** vector axis: append *)
+  Lemma comb_vec c j nS nT (lv ov : list A) :
+    c = VSamples \/ c = GSlices ->
+    length lv = mult_spec (nS, nT, j) c -> length ov = mult_spec (nS, nT, 1) c ->
+    length (lv ++ ov) = mult_spec (nS, nT, S j) c /\
+    forall s t v, s < nS -> t < nT -> v < S j ->
+      nth (cidx (nS, nT, S j) c (s, t, v)) (lv ++ ov) d0 =
+      if v <? j then nth (cidx (nS, nT, j) c (s, t, v)) lv d0 else nth (cidx (nS, nT, 1) c (s, t, 0)) ov d0.
+  Proof.
+    intros [-> | ->] Hl Ho; cbn [mult_spec cidx] in *.
+    - split; [rewrite app_length; nia|]. intros s t v Hs Ht Hv.
+      replace v with (0 + 1 * v) at 1 by ring.
+      rewrite (app_block_nth lv ov 1 j v 0) by lia. destruct (v <? j) eqn:E.
+      + f_equal; ring.
+      + apply Nat.ltb_ge in E. f_equal; nia.
+    - split; [rewrite app_length; nia|]. intros s t v Hs Ht Hv.
+      replace (s + nS * (t + nT * v)) with ((s + nS * t) + (nS * nT) * v) by ring.
+      rewrite (app_block_nth lv ov (nS * nT) j v (s + nS * t)) by nia. destruct (v <? j) eqn:E.
+      + f_equal; ring.
+      + apply Nat.ltb_ge in E. f_equal; nia.
+  Qed.
+End Comb.
+
+
 Section WithV.
   Context {V : Type} (veqb : V -> V -> bool) (vnone : V).
   Hypothesis veqb_spec : forall a b, reflect (a = b) (veqb a b).
@@ -136,10 +233,10 @@ Section WithV.
     end.
 
   Lemma drop_k_good h u s : good_k h s -> good_k h (drop_k u s).
-  Proof. destruct s as [[c vs]|]; [|trivial]. cbn [drop_k]. destruct (is_slices c && negb u); [trivial | auto]. Qed.
+  Proof. destruct s as [[c vs]|]; [|trivial]. cbn [drop_k]. intros H. destruct (is_slices c && negb u); [exact I | exact H]. Qed.
 
   Lemma drop_k_nondeg h u s : nondeg_k h s -> nondeg_k h (drop_k u s).
-  Proof. destruct s as [[c vs]|]; [|trivial]. cbn [drop_k]. destruct (is_slices c && negb u); [trivial | auto]. Qed.
+  Proof. destruct s as [[c vs]|]; [|trivial]. cbn [drop_k]. intros H. destruct (is_slices c && negb u); [exact I | exact H]. Qed.
 
   (** * [reclassify_k] *)
 
@@ -199,5 +296,550 @@ Section WithV.
       + intros Hs. destruct (rtarget_slices c oc Eg Hs) as [H|H]; [|auto]. destruct Hg as [_ [Hg _]]. auto.
       + unfold rtarget. destruct (mem_cls oc (pres c)); [exact Hb | reflexivity].
     - apply change_class_k_ok; try assumption. right; apply allowed_from_none.
+  Qed.
+
+  (** [l] is the value list that represents state [s] in class [c] *)
+  Definition repr (h : hdr) (s : kst V) (c : cls) (l : list V) : Prop :=
+    length l = mult_spec (dims h) c /\
+    forall p, in_dims (dims h) p -> nth (cidx (dims h) c p) l vnone = den_k h s p.
+
+  Lemma repr_self h c vs : good_k h (Some (c, vs)) -> repr h (Some (c, vs)) c vs.
+  Proof. intros [Hok [_ Hl]]. split; [exact Hl|]. intros p _. rewrite den_k_good by exact Hok. reflexivity. Qed.
+
+  Lemma nth_single (x : V) i : nth i [x] x = x.
+  Proof. destruct i as [|[|i]]; reflexivity. Qed.
+
+  (** [_get_changed_class] on the OTHER extension: defined whenever the change is allowed ... *)
+  Lemma changed_class_total h s new sd :
+    hdr_ok h -> good_k h s -> widens (kst_class s) new ->
+    (class_ok (shape h) new = true -> is_slices new = true -> sdim h <> None) ->
+    exists vs', changed_class vnone h s new sd = Ok vs'.
+  Proof.
+    intros Hh Hg Hw Hsl. destruct (class_ok (shape h) new) eqn:Eok.
+    - apply changed_class_ok; auto.
+    - destruct (changed_class_invalid vnone h s new sd Hh Hg Eok Hw) as [vs' [E _]]. eauto.
+  Qed.
+
+  (** ... and it represents the key in the new class; when the new class is not admitted by [h] (an input of
+      lower dimensionality) this needs multiplicity 1 and an absent or constant key *)
+  Lemma changed_class_repr h s new sd vs' :
+    hdr_ok h -> good_k h s -> widens (kst_class s) new ->
+    (is_slices new = true -> sdim h <> None) ->
+    (class_ok (shape h) new = false ->
+     mult_spec (dims h) new = 1 /\ (kst_class s = None \/ kst_class s = Some GConst)) ->
+    changed_class vnone h s new sd = Ok vs' -> repr h s new vs'.
+  Proof.
+    intros Hh Hg Hw Hsl Hinv Hc. destruct (class_ok (shape h) new) eqn:Eok.
+    - exact (changed_class_den vnone h s new sd vs' Hh Hg Eok Hsl Hc).
+    - destruct (Hinv eq_refl) as [Hm Hk].
+      destruct (changed_class_invalid vnone h s new sd Hh Hg Eok Hw) as [vs2 [E [HN HC]]].
+      rewrite E in Hc. apply Ok_inj in Hc. subst vs2.
+      destruct s as [[c vs]|].
+      + destruct Hk as [Hk|Hk]; [discriminate|]. cbn [kst_class] in Hk. injection Hk as ->.
+        pose proof Hg as [Hcok [_ Hl]]. destruct (dims h) as [[nS nT] nV] eqn:Ed. cbn [mult_spec] in Hl.
+        destruct vs as [|x [|y r]]; try discriminate Hl. rewrite (HC x eq_refl).
+        split; [rewrite Ed, Hm; reflexivity|]. intros p Hp. rewrite den_k_good by exact Hcok. rewrite Ed in *.
+        pose proof (cidx_lt _ new _ Hp) as Hlt. rewrite Hm in Hlt.
+        replace (cidx (nS, nT, nV) new p) with 0 by lia. destruct p as [[? ?] ?]. reflexivity.
+      + rewrite (HN eq_refl). split; [rewrite Hm; reflexivity|]. intros p _. cbn [den_k]. apply nth_single.
+  Qed.
+
+  (** * Moving both sides to ('global','slices') *)
+  Lemma to_global_slices_repr hs ho c1 lv ko2 ov :
+    hdr_ok hs -> hdr_ok ho -> sdim hs <> None -> sdim ho <> None ->
+    good_k hs (Some (c1, lv)) -> good_k ho ko2 -> (c1 = GSlices -> repr ho ko2 GSlices ov) ->
+    exists lv2 ov2, to_global_slices vnone hs ho (Some (c1, lv)) ko2 c1 lv ov = Ok (lv2, ov2) /\
+                    repr hs (Some (c1, lv)) GSlices lv2 /\ repr ho ko2 GSlices ov2.
+  Proof.
+    intros Hhs Hho Hss Hso Hgs Hgo Hov. unfold to_global_slices.
+    destruct (cls_eqb_spec c1 GSlices) as [->|Hne].
+    - exists lv, ov. split; [reflexivity|]. split; [apply repr_self; exact Hgs | auto].
+    - pose proof (class_ok_gslices hs Hhs) as Hok.
+      destruct (change_class_k_ok vnone hs (Some (c1, lv)) GSlices Hhs Hgs Hok (fun _ => Hss) eq_refl
+                  (widens_gslices _)) as [ks2 E2].
+      rewrite E2. cbn [bind].
+      destruct (change_class_k_den vnone hs _ _ ks2 Hhs Hgs Hok (fun _ => Hss) E2) as [[lv2 ->] [Hg2 Hd2]].
+      rewrite (visible_good _ _ Hg2).
+      pose proof (class_ok_gslices ho Hho) as Hoko.
+      destruct (changed_class_ok vnone ho ko2 GSlices (sdim hs) Hho Hgo Hoko (fun _ => Hso) (widens_gslices _))
+        as [ov2 Eo]. rewrite Eo. cbn [bind].
+      exists lv2, ov2. split; [reflexivity|]. split.
+      + destruct Hg2 as [_ [_ Hl2]]. split; [exact Hl2|]. intros p Hp. rewrite <- Hd2 by exact Hp.
+        rewrite den_k_good by exact Hok. reflexivity.
+      + exact (changed_class_den vnone ho ko2 GSlices (sdim hs) ov2 Hho Hgo Hoko (fun _ => Hso) Eo).
+  Qed.
+
+  (** * Finishing lemmas: a combined list is a good state of the grown header with the concatenated denotation *)
+
+  (** unchanged constant *)
+  Lemma finish_const hs hs' ho lv ov ko2 :
+    hdr_ok hs' -> good_k hs (Some (GConst, lv)) -> repr ho ko2 GConst ov -> lv = ov ->
+    good_k hs' (Some (GConst, lv)) /\ nondeg_k hs' (Some (GConst, lv)) /\
+    forall p p' p'' (b : bool), in_dims (dims ho) p'' ->
+      den_k hs' (Some (GConst, lv)) p = if b then den_k hs (Some (GConst, lv)) p' else den_k ho ko2 p''.
+  Proof.
+    intros Hh' [Hok [_ Hl]] [Hlo Hdo] <-. pose proof (class_ok_const hs' Hh') as Hok'.
+    split; [|split].
+    - split; [exact Hok'|]. split; [discriminate|]. destruct (dims hs) as [[? ?] ?], (dims hs') as [[? ?] ?]. exact Hl.
+    - intros Hc. congruence.
+    - intros p p' p'' b Hp. rewrite !den_k_good by assumption. rewrite <- (Hdo p'' Hp).
+      destruct (dims hs) as [[? ?] ?], (dims hs') as [[? ?] ?], (dims ho) as [[? ?] ?], p as [[? ?] ?], p' as [[? ?] ?], p'' as [[? ?] ?].
+      destruct b; reflexivity.
+  Qed.
+
+  Lemma finish_slice hs hs' ho ks1 ko2 c j nT nV lv2 ov2 nv :
+    hdr_ok hs' -> 1 <= j ->
+    dims hs = (j, nT, nV) -> dims ho = (1, nT, nV) -> dims hs' = (S j, nT, nV) ->
+    class_ok (shape hs') c = true -> sdim hs' <> None -> is_slices c = true ->
+    nv = mult_spec (1, nT, nV) c ->
+    repr hs ks1 c lv2 -> repr ho ko2 c ov2 ->
+    good_k hs' (Some (c, interleave j 1 nv lv2 ov2)) /\ nondeg_k hs' (Some (c, interleave j 1 nv lv2 ov2)) /\
+    forall s t v, s < S j -> t < nT -> v < nV ->
+      den_k hs' (Some (c, interleave j 1 nv lv2 ov2)) (s, t, v) =
+      if s <? j then den_k hs ks1 (s, t, v) else den_k ho ko2 (0, t, v).
+  Proof.
+    intros Hh' Hj Hd Hdo Hd' Hok Hsd Hsl Hnv [Hl1 Hn1] [Hl2 Hn2].
+    rewrite Hd in Hl1, Hn1. rewrite Hdo in Hl2, Hn2.
+    destruct (comb_slice vnone c j nT nV nv lv2 ov2 Hsl Hnv Hl1 Hl2) as [HL HN].
+    pose proof (dims_pos hs' _ _ _ Hh' Hd') as [_ [HT HV]].
+    split; [|split].
+    - split; [exact Hok|]. split; [auto|]. rewrite Hd'. exact HL.
+    - intros _. rewrite Hd'. destruct c; try discriminate Hsl; cbn [mult_spec]; nia.
+    - intros s t v Hs Ht Hv. rewrite den_k_good by exact Hok. rewrite Hd', HN by assumption.
+      destruct (Nat.ltb_spec s j) as [E|E]; [apply Hn1 | apply Hn2]; cbn [in_dims]; lia.
+  Qed.
+
+  Lemma finish_time4 hs hs' ho ks1 ko2 c j nS lv2 ov2 :
+    hdr_ok hs' -> 1 <= j ->
+    dims hs = (nS, j, 1) -> dims ho = (nS, 1, 1) -> dims hs' = (nS, S j, 1) ->
+    class_ok (shape hs') c = true -> (is_slices c = true -> sdim hs' <> None) -> c = TSamples \/ c = GSlices ->
+    repr hs ks1 c lv2 -> repr ho ko2 c ov2 ->
+    good_k hs' (Some (c, lv2 ++ ov2)) /\ nondeg_k hs' (Some (c, lv2 ++ ov2)) /\
+    forall s t v, s < nS -> t < S j -> v < 1 ->
+      den_k hs' (Some (c, lv2 ++ ov2)) (s, t, v) =
+      if t <? j then den_k hs ks1 (s, t, v) else den_k ho ko2 (s, 0, v).
+  Proof.
+    intros Hh' Hj Hd Hdo Hd' Hok Hsd Hc [Hl1 Hn1] [Hl2 Hn2].
+    rewrite Hd in Hl1, Hn1. rewrite Hdo in Hl2, Hn2.
+    destruct (comb_time4 vnone c j nS lv2 ov2 Hc Hl1 Hl2) as [HL HN].
+    pose proof (dims_pos hs' _ _ _ Hh' Hd') as [HS _].
+    split; [|split].
+    - split; [exact Hok|]. split; [exact Hsd|]. rewrite Hd'. exact HL.
+    - intros _. rewrite Hd'. destruct Hc as [-> | ->]; cbn [mult_spec]; nia.
+    - intros s t v Hs Ht Hv. rewrite den_k_good by exact Hok. rewrite Hd', HN by assumption.
+      destruct (Nat.ltb_spec t j) as [E|E]; [apply Hn1 | apply Hn2]; cbn [in_dims]; lia.
+  Qed.
+
+  Lemma finish_time5 hs hs' ho ks1 ko2 j nS nV lv2 ov2 :
+    hdr_ok hs' -> 1 <= j ->
+    dims hs = (nS, j, nV) -> dims ho = (nS, 1, nV) -> dims hs' = (nS, S j, nV) ->
+    sdim hs' <> None ->
+    repr hs ks1 GSlices lv2 -> repr ho ko2 GSlices ov2 ->
+    good_k hs' (Some (GSlices, interleave (nS * j) (nS * 1) nV lv2 ov2)) /\
+    nondeg_k hs' (Some (GSlices, interleave (nS * j) (nS * 1) nV lv2 ov2)) /\
+    forall s t v, s < nS -> t < S j -> v < nV ->
+      den_k hs' (Some (GSlices, interleave (nS * j) (nS * 1) nV lv2 ov2)) (s, t, v) =
+      if t <? j then den_k hs ks1 (s, t, v) else den_k ho ko2 (s, 0, v).
+  Proof.
+    intros Hh' Hj Hd Hdo Hd' Hsd [Hl1 Hn1] [Hl2 Hn2].
+    rewrite Hd in Hl1, Hn1. rewrite Hdo in Hl2, Hn2.
+    destruct (comb_time5 vnone j nS nV lv2 ov2 Hl1 Hl2) as [HL HN].
+    pose proof (dims_pos hs' _ _ _ Hh' Hd') as [HS [_ HV]].
+    pose proof (class_ok_gslices hs' Hh') as Hok.
+    split; [|split].
+    - split; [exact Hok|]. split; [auto|]. rewrite Hd'. exact HL.
+    - intros _. rewrite Hd'. cbn [mult_spec]. nia.
+    - intros s t v Hs Ht Hv. rewrite den_k_good by exact Hok. rewrite Hd', HN by assumption.
+      destruct (Nat.ltb_spec t j) as [E|E]; [apply Hn1 | apply Hn2]; cbn [in_dims]; lia.
+  Qed.
+
+  Lemma finish_vec hs hs' ho ks1 ko2 c j nS nT lv2 ov2 :
+    hdr_ok hs' -> 1 <= j ->
+    dims hs = (nS, nT, j) -> dims ho = (nS, nT, 1) -> dims hs' = (nS, nT, S j) ->
+    class_ok (shape hs') c = true -> (is_slices c = true -> sdim hs' <> None) -> c = VSamples \/ c = GSlices ->
+    repr hs ks1 c lv2 -> repr ho ko2 c ov2 ->
+    good_k hs' (Some (c, lv2 ++ ov2)) /\ nondeg_k hs' (Some (c, lv2 ++ ov2)) /\
+    forall s t v, s < nS -> t < nT -> v < S j ->
+      den_k hs' (Some (c, lv2 ++ ov2)) (s, t, v) =
+      if v <? j then den_k hs ks1 (s, t, v) else den_k ho ko2 (s, t, 0).
+  Proof.
+    intros Hh' Hj Hd Hdo Hd' Hok Hsd Hc [Hl1 Hn1] [Hl2 Hn2].
+    rewrite Hd in Hl1, Hn1. rewrite Hdo in Hl2, Hn2.
+    destruct (comb_vec vnone c j nS nT lv2 ov2 Hc Hl1 Hl2) as [HL HN].
+    pose proof (dims_pos hs' _ _ _ Hh' Hd') as [HS [HT _]].
+    split; [|split].
+    - split; [exact Hok|]. split; [exact Hsd|]. rewrite Hd'. exact HL.
+    - intros _. rewrite Hd'. destruct Hc as [-> | ->]; cbn [mult_spec]; nia.
+    - intros s t v Hs Ht Hv. rewrite den_k_good by exact Hok. rewrite Hd', HN by assumption.
+      destruct (Nat.ltb_spec v j) as [E|E]; [apply Hn1 | apply Hn2]; cbn [in_dims]; lia.
+  Qed.
+
+  (** * Slice axis *)
+  Record slice_ctx (hs hs' ho : hdr) (j nT nV : nat) : Prop := {
+    sx_hs : hdr_ok hs; sx_hs' : hdr_ok hs'; sx_ho : hdr_ok ho; sx_j : 1 <= j;
+    sx_d : dims hs = (j, nT, nV); sx_do : dims ho = (1, nT, nV); sx_d' : dims hs' = (S j, nT, nV);
+    sx_oko : forall c, class_ok (shape ho) c = class_ok (shape hs) c;
+    sx_ok' : forall c, class_ok (shape hs') c = class_ok (shape hs) c;
+    sx_base : forall c, has_base hs (base_of c) = class_ok (shape hs) c;
+    sx_sd : sdim hs <> None; sx_sdo : sdim ho = sdim hs; sx_sd' : sdim hs' = sdim hs }.
+
+  Definition slice_law (hs hs' ho : hdr) (j nT nV : nat) (ks1 ko2 : kst V) (ks' : kst V) : Prop :=
+    good_k hs' ks' /\ nondeg_k hs' ks' /\
+    forall s t v, s < S j -> t < nT -> v < nV ->
+      den_k hs' ks' (s, t, v) = if s <? j then den_k hs ks1 (s, t, v) else den_k ho ko2 (0, t, v).
+
+  (** a constant that starts to vary along the slice axis moves to a per-slice class with one volume *)
+  Lemma slice_const_branch hs hs' ho j nT nV lv ko2 dc :
+    slice_ctx hs hs' ho j nT nV ->
+    good_k hs (Some (GConst, lv)) -> good_k ho ko2 -> widens (kst_class ko2) GConst ->
+    is_slices dc = true -> class_ok (shape hs) dc = true -> mult_spec (1, nT, nV) dc = 1 ->
+    exists ks',
+      (bind (change_class_k vnone hs (Some (GConst, lv)) dc) (fun ks2 =>
+       bind (changed_class vnone ho ko2 dc (sdim hs)) (fun ov2 =>
+       match visible hs ks2 with
+       | Some (c2, lv2) => Ok (Some (c2, lv2 ++ ov2))
+       | None => Err EAttr
+       end))) = Ok ks' /\ slice_law hs hs' ho j nT nV (Some (GConst, lv)) ko2 ks'.
+  Proof.
+    intros X Hgs Hgo Hw Hsl Hok Hm1. destruct X.
+    assert (Hwd : widens (Some GConst) dc) by (right; rewrite allowedb_Some; destruct dc; try discriminate Hsl; reflexivity).
+    assert (Hb : has_base hs (base_of dc) = true) by (rewrite sx_base0; exact Hok).
+    destruct (change_class_k_ok vnone hs _ dc sx_hs0 Hgs Hok (fun _ => sx_sd0) Hb Hwd) as [ks2 E2].
+    rewrite E2. cbn [bind].
+    destruct (change_class_k_den vnone hs _ _ ks2 sx_hs0 Hgs Hok (fun _ => sx_sd0) E2) as [[lv2 ->] [Hg2 Hd2]].
+    assert (Hoko : class_ok (shape ho) dc = true) by (rewrite sx_oko0; exact Hok).
+    assert (Hsdo : sdim ho <> None) by (rewrite sx_sdo0; exact sx_sd0).
+    destruct (changed_class_ok vnone ho ko2 dc (sdim hs) sx_ho0 Hgo Hoko (fun _ => Hsdo)
+                (widens_trans _ _ _ Hw Hwd)) as [ov2 Eo].
+    rewrite Eo. cbn [bind]. rewrite (visible_good _ _ Hg2).
+    eexists. split; [reflexivity|].
+    pose proof (changed_class_den vnone ho ko2 dc (sdim hs) ov2 sx_ho0 Hgo Hoko (fun _ => Hsdo) Eo) as Hro.
+    assert (Hrs : repr hs (Some (GConst, lv)) dc lv2).
+    { destruct Hg2 as [_ [_ Hl2]]. split; [exact Hl2|]. intros p Hp. rewrite <- Hd2 by exact Hp.
+      rewrite den_k_good by exact Hok. reflexivity. }
+    assert (Hl1 : length lv2 = j).
+    { destruct Hrs as [Hl _]. rewrite sx_d0 in Hl. rewrite Hl. destruct dc; try discriminate Hsl; cbn [mult_spec] in *; nia. }
+    assert (Hl2 : length ov2 = 1).
+    { destruct Hro as [Hl _]. rewrite sx_do0 in Hl. rewrite Hl. exact Hm1. }
+    rewrite <- (interleave_one j 1 lv2 ov2) by (symmetry; assumption).
+    apply (finish_slice hs hs' ho _ ko2 dc j nT nV lv2 ov2 1); try assumption.
+    - rewrite sx_ok'0. exact Hok.
+    - rewrite sx_sd'0. exact sx_sd0.
+    - symmetry. exact Hm1.
+  Qed.
+
+  Lemma insert_slice_k_den hs hs' ho c1 lv ko2 j nT nV :
+    slice_ctx hs hs' ho j nT nV ->
+    good_k hs (Some (c1, lv)) -> good_k ho ko2 -> widens (kst_class ko2) c1 ->
+    exists ks', insert_slice_k veqb vnone hs ho (Some (c1, lv)) ko2 = Ok ks' /\
+                slice_law hs hs' ho j nT nV (Some (c1, lv)) ko2 ks'.
+  Proof.
+    intros X Hgs Hgo Hw. pose proof X as X0. destruct X.
+    pose proof Hgs as [Hok1 [Hsl1 Hlen1]].
+    assert (Hoko : class_ok (shape ho) c1 = true) by (rewrite sx_oko0; exact Hok1).
+    assert (Hsdo : sdim ho <> None) by (rewrite sx_sdo0; exact sx_sd0).
+    assert (Hsd' : sdim hs' <> None) by (rewrite sx_sd'0; exact sx_sd0).
+    unfold insert_slice_k. rewrite (visible_good _ _ Hgs).
+    destruct (changed_class_ok vnone ho ko2 c1 (sdim hs) sx_ho0 Hgo Hoko (fun _ => Hsdo) Hw) as [ov Eov].
+    rewrite Eov. cbn [bind].
+    pose proof (changed_class_den vnone ho ko2 c1 (sdim hs) ov sx_ho0 Hgo Hoko (fun _ => Hsdo) Eov) as Hro.
+    (* the general path: everything in ('global','slices'), per-volume interleave *)
+    assert (G : exists ks',
+      (bind (to_global_slices vnone hs ho (Some (c1, lv)) ko2 c1 lv ov) (fun lo =>
+       match n_slices hs, n_slices ho with
+       | Some n, Some m => Ok (Some (GSlices, interleave n m (prod_list (skipn 3 (shape hs))) (fst lo) (snd lo)))
+       | _, _ => Err EType
+       end)) = Ok ks' /\ slice_law hs hs' ho j nT nV (Some (c1, lv)) ko2 ks').
+    { destruct (to_global_slices_repr hs ho c1 lv ko2 ov sx_hs0 sx_ho0 sx_sd0 Hsdo Hgs Hgo)
+        as [lv2 [ov2 [E [Hr1 Hr2]]]]; [intros ->; exact Hro|].
+      rewrite E. cbn [bind fst snd].
+      rewrite (n_slices_dims hs _ _ _ sx_hs0 sx_sd0 sx_d0), (n_slices_dims ho _ _ _ sx_ho0 Hsdo sx_do0).
+      rewrite (prod_skip3 hs _ _ _ sx_hs0 sx_d0).
+      eexists. split; [reflexivity|].
+      apply (finish_slice hs hs' ho _ ko2 GSlices j nT nV lv2 ov2 (nT * nV)); try assumption.
+      - apply class_ok_gslices; assumption.
+      - reflexivity.
+      - cbn [mult_spec]. lia. }
+    destruct c1; try exact G.
+    - (* ('global','const') *)
+      destruct (list_eqb_spec veqb veqb_spec lv ov) as [Heq|Hne]; cbn [negb].
+      + eexists. split; [reflexivity|].
+        destruct (finish_const hs hs' ho lv ov ko2 sx_hs'0 Hgs Hro Heq) as [F1 [F2 F3]].
+        split; [exact F1|]. split; [exact F2|]. intros s t v Hs Ht Hv. apply F3.
+        rewrite sx_do0. cbn [in_dims]. lia.
+      + destruct copy_dests_eq as [_ [_ [_ ->]]]. cbn [find].
+        change (has_base hs BTime) with (has_base hs (base_of TSlices)).
+        change (has_base hs BVector) with (has_base hs (base_of VSlices)).
+        rewrite !sx_base0.
+        destruct (class_ok (shape hs) TSlices) eqn:Et.
+        { cbn [slices_of_base]. apply (slice_const_branch hs hs' ho j nT nV lv ko2 TSlices); auto. }
+        pose proof (no_tslices_T1 hs _ _ _ sx_hs0 sx_d0 Et) as ->.
+        destruct (class_ok (shape hs) VSlices) eqn:Ev.
+        { cbn [slices_of_base]. apply (slice_const_branch hs hs' ho j 1 nV lv ko2 VSlices); auto. }
+        pose proof (no_vslices_V1 hs _ _ _ sx_hs0 sx_d0 Ev) as ->.
+        cbn [has_base slices_of_base].
+        apply (slice_const_branch hs hs' ho j 1 1 lv ko2 GSlices); auto; try (apply class_ok_gslices; assumption).
+    - (* ('time','slices') *)
+      eexists. split; [reflexivity|].
+      assert (Hl2 : length ov = 1) by (destruct Hro as [Hl _]; rewrite sx_do0 in Hl; exact Hl).
+      assert (Hl1 : length lv = j) by (rewrite Hlen1, sx_d0; reflexivity).
+      rewrite <- (interleave_one j 1 lv ov) by (symmetry; assumption).
+      apply (finish_slice hs hs' ho _ ko2 TSlices j nT nV lv ov 1); try assumption; try reflexivity.
+      + rewrite sx_ok'0. exact Hok1.
+      + apply repr_self. exact Hgs.
+  Qed.
+
+  (** * Time axis *)
+  Definition time_law (hs hs' ho : hdr) (j nS nV : nat) (ks1 ko2 : kst V) (ks' : kst V) : Prop :=
+    good_k hs' ks' /\ nondeg_k hs' ks' /\
+    forall s t v, s < nS -> t < S j -> v < nV ->
+      den_k hs' ks' (s, t, v) = if t <? j then den_k hs ks1 (s, t, v) else den_k ho ko2 (s, 0, v).
+
+  Record time_ctx (hs hs' ho : hdr) (j nS nV : nat) : Prop := {
+    tx_hs : hdr_ok hs; tx_hs' : hdr_ok hs'; tx_ho : hdr_ok ho; tx_j : 1 <= j;
+    tx_d : dims hs = (nS, j, nV); tx_do : dims ho = (nS, 1, nV); tx_d' : dims hs' = (nS, S j, nV);
+    tx_oko : forall c, class_ok (shape ho) c = true -> class_ok (shape hs) c = true;
+    tx_ok' : forall c, class_ok (shape hs) c = true -> class_ok (shape hs') c = true;
+    tx_base : forall c, class_ok (shape hs) c = true -> has_base hs (base_of c) = true;
+    tx_sd : sdim hs <> None; tx_sdo : sdim ho = sdim hs; tx_sd' : sdim hs' = sdim hs }.
+
+  Lemma sample_const_eq hs hs' ho lv ov ko2 (P : kst V -> Prop) :
+    hdr_ok hs' -> good_k hs (Some (GConst, lv)) -> repr ho ko2 GConst ov -> lv = ov ->
+    (good_k hs' (Some (GConst, lv)) -> nondeg_k hs' (Some (GConst, lv)) ->
+     (forall p p' p'' (b : bool), in_dims (dims ho) p'' ->
+        den_k hs' (Some (GConst, lv)) p = if b then den_k hs (Some (GConst, lv)) p' else den_k ho ko2 p'') ->
+     P (Some (GConst, lv))) -> P (Some (GConst, lv)).
+  Proof. intros H1 H2 H3 H4 K. destruct (finish_const hs hs' ho lv ov ko2 H1 H2 H3 H4) as [F1 [F2 F3]]. auto. Qed.
+
+  (** 4-D result: the time axis is the slowest one *)
+  Lemma insert_time4_k_den hs hs' ho c1 lv ko2 j nS :
+    time_ctx hs hs' ho j nS 1 -> ndim hs = 4 ->
+    class_ok (shape hs) TSamples = true -> class_ok (shape hs) VSamples = false -> class_ok (shape hs) VSlices = false ->
+    good_k hs (Some (c1, lv)) -> good_k ho ko2 -> widens (kst_class ko2) c1 ->
+    exists ks', insert_sample_k veqb vnone hs ho (Some (c1, lv)) ko2 BTime = Ok ks' /\
+                time_law hs hs' ho j nS 1 (Some (c1, lv)) ko2 ks'.
+  Proof.
+    intros X Hnd HokT HnoV HnoVS Hgs Hgo Hw. destruct X.
+    pose proof Hgs as [Hok1 [Hsl1 Hlen1]].
+    assert (Hsdo : sdim ho <> None) by (rewrite tx_sdo0; exact tx_sd0).
+    assert (Hsd' : sdim hs' <> None) by (rewrite tx_sd'0; exact tx_sd0).
+    assert (HnoVo : class_ok (shape ho) VSamples = false).
+    { destruct (class_ok (shape ho) VSamples) eqn:E; [|reflexivity]. apply tx_oko0 in E. congruence. }
+    unfold insert_sample_k. rewrite (visible_good _ _ Hgs). cbn [samples_of_base].
+    destruct (changed_class_total ho ko2 c1 (sdim hs) tx_ho0 Hgo Hw (fun _ _ => Hsdo)) as [ov Eov].
+    rewrite Eov. cbn [bind]. rewrite Hnd. cbn [cbase_eqb Nat.eqb andb negb].
+    (* representation of other in ('time','samples') *)
+    assert (HreprT : forall ovx, widens (kst_class ko2) TSamples ->
+                     changed_class vnone ho ko2 TSamples (sdim hs) = Ok ovx -> repr ho ko2 TSamples ovx).
+    { intros ovx Hwx Ex. apply (changed_class_repr ho ko2 TSamples (sdim hs) ovx tx_ho0 Hgo Hwx (fun _ => Hsdo)); [|exact Ex].
+      intros Hno. split; [rewrite tx_do0; reflexivity|].
+      destruct ko2 as [[oc ovs]|]; [right | left; reflexivity]. cbn [kst_class] in *.
+      destruct Hgo as [Hoko _]. destruct Hwx as [Hwx|Hwx].
+      - injection Hwx as ->. congruence.
+      - rewrite allowedb_Some in Hwx. destruct oc; try discriminate Hwx; try reflexivity. congruence. }
+    assert (G : exists ks',
+      (bind (to_global_slices vnone hs ho (Some (c1, lv)) ko2 c1 lv ov) (fun lo =>
+         Ok (Some (GSlices, fst lo ++ snd lo)))) = Ok ks' /\ time_law hs hs' ho j nS 1 (Some (c1, lv)) ko2 ks').
+    { destruct (to_global_slices_repr hs ho c1 lv ko2 ov tx_hs0 tx_ho0 tx_sd0 Hsdo Hgs Hgo)
+        as [lv2 [ov2 [E [Hr1 Hr2]]]].
+      { intros ->. apply (changed_class_den vnone ho ko2 GSlices (sdim hs) ov tx_ho0 Hgo
+                            (class_ok_gslices ho tx_ho0) (fun _ => Hsdo) Eov). }
+      rewrite E. cbn [bind fst snd]. eexists. split; [reflexivity|].
+      apply (finish_time4 hs hs' ho _ ko2 GSlices j nS lv2 ov2); auto.
+      apply class_ok_gslices; assumption. }
+    destruct c1; try exact G; try congruence.
+    - (* ('global','const') *)
+      cbn [cls_eqb andb].
+      assert (Hro : repr ho ko2 GConst ov)
+        by (apply (changed_class_den vnone ho ko2 GConst (sdim hs) ov tx_ho0 Hgo (class_ok_const ho tx_ho0)
+                     (fun H => ltac:(discriminate H)) Eov)).
+      destruct (list_eqb_spec veqb veqb_spec lv ov) as [Heq|Hne]; cbn [negb].
+      + eexists. split; [reflexivity|].
+        destruct (finish_const hs hs' ho lv ov ko2 tx_hs'0 Hgs Hro Heq) as [F1 [F2 F3]].
+        split; [exact F1|]. split; [exact F2|]. intros s t v Hs Ht Hv. apply F3.
+        rewrite tx_do0. cbn [in_dims]. lia.
+      + assert (Hwd : widens (Some GConst) TSamples) by (right; reflexivity).
+        destruct (change_class_k_ok vnone hs _ TSamples tx_hs0 Hgs HokT (fun H => ltac:(discriminate H))
+                    (tx_base0 _ HokT) Hwd) as [ks2 E2].
+        rewrite E2. cbn [bind].
+        destruct (change_class_k_den vnone hs _ _ ks2 tx_hs0 Hgs HokT (fun H => ltac:(discriminate H)) E2)
+          as [[lv2 ->] [Hg2 Hd2]].
+        pose proof (widens_trans _ _ _ Hw Hwd) as Hwo.
+        destruct (changed_class_total ho ko2 TSamples (sdim hs) tx_ho0 Hgo Hwo (fun _ _ => Hsdo)) as [ov2 Eo].
+        rewrite Eo. cbn [bind]. rewrite (visible_good _ _ Hg2). eexists. split; [reflexivity|].
+        apply (finish_time4 hs hs' ho _ ko2 TSamples j nS lv2 ov2); auto.
+        destruct Hg2 as [_ [_ Hl2]]. split; [exact Hl2|]. intros p Hp. rewrite <- Hd2 by exact Hp.
+        rewrite den_k_good by exact HokT. reflexivity.
+    - (* ('time','samples') *)
+      cbn [cls_eqb andb]. eexists. split; [reflexivity|].
+      apply (finish_time4 hs hs' ho _ ko2 TSamples j nS lv ov); auto.
+      apply repr_self. exact Hgs.
+  Qed.
+
+  Lemma shape_at_3 h nS nT nV : hdr_ok h -> 4 <= ndim h -> dims h = (nS, nT, nV) -> shape_at h 3 = Some nT.
+  Proof.
+    intros [Hn _] H4 Hd. unfold dims, ndim, shape_at in *. injection Hd as _ <- _.
+    destruct (shape h) as [|a [|b [|c [|t r]]]]; cbn [length] in H4; try lia. reflexivity.
+  Qed.
+
+  Lemma shape_at_4 h nS nT nV : hdr_ok h -> 5 <= ndim h -> dims h = (nS, nT, nV) -> shape_at h 4 = Some nV.
+  Proof.
+    intros [Hn _] H4 Hd. unfold dims, ndim, shape_at in *. injection Hd as _ _ <-.
+    destruct (shape h) as [|a [|b [|c [|t [|v r]]]]]; cbn [length] in H4; try lia. reflexivity.
+  Qed.
+
+  (** 5-D result: per-vector interleave *)
+  Lemma insert_time5_k_den hs hs' ho c1 lv ko2 j nS nV :
+    time_ctx hs hs' ho j nS nV -> ndim hs = 5 -> ndim ho = 5 ->
+    good_k hs (Some (c1, lv)) -> good_k ho ko2 -> widens (kst_class ko2) c1 ->
+    exists ks', insert_sample_k veqb vnone hs ho (Some (c1, lv)) ko2 BTime = Ok ks' /\
+                time_law hs hs' ho j nS nV (Some (c1, lv)) ko2 ks'.
+  Proof.
+    intros X Hnd Hndo Hgs Hgo Hw. destruct X.
+    pose proof Hgs as [Hok1 [Hsl1 Hlen1]].
+    assert (Hsdo : sdim ho <> None) by (rewrite tx_sdo0; exact tx_sd0).
+    assert (Hsd' : sdim hs' <> None) by (rewrite tx_sd'0; exact tx_sd0).
+    unfold insert_sample_k. rewrite (visible_good _ _ Hgs). cbn [samples_of_base].
+    destruct (changed_class_total ho ko2 c1 (sdim hs) tx_ho0 Hgo Hw (fun _ _ => Hsdo)) as [ov Eov].
+    rewrite Eov. cbn [bind]. rewrite Hnd. cbn [cbase_eqb Nat.eqb andb negb]. rewrite !andb_false_r.
+    assert (G : exists ks',
+      (bind (to_global_slices vnone hs ho (Some (c1, lv)) ko2 c1 lv ov) (fun lo =>
+         match n_slices hs with
+         | None => Err EType
+         | Some n =>
+             match shape_at hs 3, shape_at ho 3, shape_at hs 4 with
+             | Some t, Some ot, Some v => Ok (Some (GSlices, interleave (n * t) (n * ot) v (fst lo) (snd lo)))
+             | _, _, _ => Err EIndex
+             end
+         end)) = Ok ks' /\ time_law hs hs' ho j nS nV (Some (c1, lv)) ko2 ks').
+    { destruct (to_global_slices_repr hs ho c1 lv ko2 ov tx_hs0 tx_ho0 tx_sd0 Hsdo Hgs Hgo)
+        as [lv2 [ov2 [E [Hr1 Hr2]]]].
+      { intros ->. apply (changed_class_den vnone ho ko2 GSlices (sdim hs) ov tx_ho0 Hgo
+                            (class_ok_gslices ho tx_ho0) (fun _ => Hsdo) Eov). }
+      rewrite E. cbn [bind fst snd].
+      rewrite (n_slices_dims hs _ _ _ tx_hs0 tx_sd0 tx_d0).
+      rewrite (shape_at_3 hs _ _ _ tx_hs0 ltac:(lia) tx_d0), (shape_at_3 ho _ _ _ tx_ho0 ltac:(lia) tx_do0),
+              (shape_at_4 hs _ _ _ tx_hs0 ltac:(lia) tx_d0).
+      eexists. split; [reflexivity|].
+      apply (finish_time5 hs hs' ho _ ko2 j nS nV lv2 ov2); auto. }
+    destruct (cls_eqb_spec c1 GConst) as [->|Hnc]; cbn [andb]; [|exact G].
+    assert (Hro : repr ho ko2 GConst ov)
+      by (apply (changed_class_den vnone ho ko2 GConst (sdim hs) ov tx_ho0 Hgo (class_ok_const ho tx_ho0)
+                   (fun H => ltac:(discriminate H)) Eov)).
+    destruct (list_eqb_spec veqb veqb_spec lv ov) as [Heq|Hne]; [|exact G].
+    eexists. split; [reflexivity|].
+    destruct (finish_const hs hs' ho lv ov ko2 tx_hs'0 Hgs Hro Heq) as [F1 [F2 F3]].
+    split; [exact F1|]. split; [exact F2|]. intros s t v Hs Ht Hv. apply F3.
+    rewrite tx_do0. cbn [in_dims]. lia.
+  Qed.
+
+  (** * Vector axis *)
+  Definition vec_law (hs hs' ho : hdr) (j nS nT : nat) (ks1 ko2 : kst V) (ks' : kst V) : Prop :=
+    good_k hs' ks' /\ nondeg_k hs' ks' /\
+    forall s t v, s < nS -> t < nT -> v < S j ->
+      den_k hs' ks' (s, t, v) = if v <? j then den_k hs ks1 (s, t, v) else den_k ho ko2 (s, t, 0).
+
+  Record vec_ctx (hs hs' ho : hdr) (j nS nT : nat) : Prop := {
+    vx_hs : hdr_ok hs; vx_hs' : hdr_ok hs'; vx_ho : hdr_ok ho; vx_j : 1 <= j;
+    vx_d : dims hs = (nS, nT, j); vx_do : dims ho = (nS, nT, 1); vx_d' : dims hs' = (nS, nT, S j);
+    vx_ok' : forall c, class_ok (shape hs) c = true -> class_ok (shape hs') c = true;
+    vx_base : forall c, class_ok (shape hs) c = true -> has_base hs (base_of c) = true;
+    vx_okV : class_ok (shape hs) VSamples = true;
+    vx_sd : sdim hs <> None; vx_sdo : sdim ho = sdim hs; vx_sd' : sdim hs' = sdim hs }.
+
+  Lemma insert_vec_k_den hs hs' ho c1 lv ko2 j nS nT :
+    vec_ctx hs hs' ho j nS nT ->
+    good_k hs (Some (c1, lv)) -> good_k ho ko2 -> widens (kst_class ko2) c1 ->
+    exists ks', insert_sample_k veqb vnone hs ho (Some (c1, lv)) ko2 BVector = Ok ks' /\
+                vec_law hs hs' ho j nS nT (Some (c1, lv)) ko2 ks'.
+  Proof.
+    intros X Hgs Hgo Hw. destruct X.
+    pose proof Hgs as [Hok1 [Hsl1 Hlen1]].
+    assert (Hsdo : sdim ho <> None) by (rewrite vx_sdo0; exact vx_sd0).
+    assert (Hsd' : sdim hs' <> None) by (rewrite vx_sd'0; exact vx_sd0).
+    unfold insert_sample_k. rewrite (visible_good _ _ Hgs). cbn [samples_of_base].
+    destruct (changed_class_total ho ko2 c1 (sdim hs) vx_ho0 Hgo Hw (fun _ _ => Hsdo)) as [ov Eov].
+    rewrite Eov. cbn [bind]. cbn [cbase_eqb andb negb]. rewrite !andb_true_r.
+    assert (HreprV : forall ovx, widens (kst_class ko2) VSamples ->
+                     changed_class vnone ho ko2 VSamples (sdim hs) = Ok ovx -> repr ho ko2 VSamples ovx).
+    { intros ovx Hwx Ex. apply (changed_class_repr ho ko2 VSamples (sdim hs) ovx vx_ho0 Hgo Hwx (fun _ => Hsdo)); [|exact Ex].
+      intros Hno. split; [rewrite vx_do0; reflexivity|].
+      destruct ko2 as [[oc ovs]|]; [right | left; reflexivity]. cbn [kst_class] in *.
+      destruct Hgo as [Hoko _]. destruct Hwx as [Hwx|Hwx].
+      - injection Hwx as ->. congruence.
+      - rewrite allowedb_Some in Hwx. destruct oc; try discriminate Hwx; reflexivity. }
+    assert (G : exists ks',
+      (bind (to_global_slices vnone hs ho (Some (c1, lv)) ko2 c1 lv ov) (fun lo =>
+         Ok (Some (GSlices, fst lo ++ snd lo)))) = Ok ks' /\ vec_law hs hs' ho j nS nT (Some (c1, lv)) ko2 ks').
+    { destruct (to_global_slices_repr hs ho c1 lv ko2 ov vx_hs0 vx_ho0 vx_sd0 Hsdo Hgs Hgo)
+        as [lv2 [ov2 [E [Hr1 Hr2]]]].
+      { intros ->. apply (changed_class_den vnone ho ko2 GSlices (sdim hs) ov vx_ho0 Hgo
+                            (class_ok_gslices ho vx_ho0) (fun _ => Hsdo) Eov). }
+      rewrite E. cbn [bind fst snd]. eexists. split; [reflexivity|].
+      apply (finish_vec hs hs' ho _ ko2 GSlices j nS nT lv2 ov2); auto.
+      apply class_ok_gslices; assumption. }
+    destruct c1; try exact G.
+    - (* ('global','const') *)
+      cbn [cls_eqb].
+      assert (Hro : repr ho ko2 GConst ov)
+        by (apply (changed_class_den vnone ho ko2 GConst (sdim hs) ov vx_ho0 Hgo (class_ok_const ho vx_ho0)
+                     (fun H => ltac:(discriminate H)) Eov)).
+      destruct (list_eqb_spec veqb veqb_spec lv ov) as [Heq|Hne]; cbn [negb].
+      + eexists. split; [reflexivity|].
+        destruct (finish_const hs hs' ho lv ov ko2 vx_hs'0 Hgs Hro Heq) as [F1 [F2 F3]].
+        split; [exact F1|]. split; [exact F2|]. intros s t v Hs Ht Hv. apply F3.
+        rewrite vx_do0. cbn [in_dims]. lia.
+      + assert (Hwd : widens (Some GConst) VSamples) by (right; reflexivity).
+        destruct (change_class_k_ok vnone hs _ VSamples vx_hs0 Hgs vx_okV0 (fun H => ltac:(discriminate H))
+                    (vx_base0 _ vx_okV0) Hwd) as [ks2 E2].
+        rewrite E2. cbn [bind].
+        destruct (change_class_k_den vnone hs _ _ ks2 vx_hs0 Hgs vx_okV0 (fun H => ltac:(discriminate H)) E2)
+          as [[lv2 ->] [Hg2 Hd2]].
+        pose proof (widens_trans _ _ _ Hw Hwd) as Hwo.
+        destruct (changed_class_total ho ko2 VSamples (sdim hs) vx_ho0 Hgo Hwo (fun _ _ => Hsdo)) as [ov2 Eo].
+        rewrite Eo. cbn [bind]. rewrite (visible_good _ _ Hg2). eexists. split; [reflexivity|].
+        apply (finish_vec hs hs' ho _ ko2 VSamples j nS nT lv2 ov2); auto.
+        destruct Hg2 as [_ [_ Hl2]]. split; [exact Hl2|]. intros p Hp. rewrite <- Hd2 by exact Hp.
+        rewrite den_k_good by exact vx_okV0. reflexivity.
+    - (* ('vector','samples') *)
+      cbn [cls_eqb]. eexists. split; [reflexivity|].
+      apply (finish_vec hs hs' ho _ ko2 VSamples j nS nT lv ov); auto.
+      apply repr_self. exact Hgs.
+  Qed.
+
+  (** * Non-slice spatial axis: keep the key iff both sides agree everywhere *)
+  Lemma repr_eq_iff hs ho ks1 ko2 c lv ov :
+    hdr_ok hs -> dims ho = dims hs -> repr hs ks1 c lv -> repr ho ko2 c ov ->
+    (lv = ov <-> forall p, in_dims (dims hs) p -> den_k hs ks1 p = den_k ho ko2 p).
+  Proof.
+    intros Hh Hd [Hl1 Hn1] [Hl2 Hn2]. rewrite Hd in Hl2, Hn2. split.
+    - intros <- p Hp. rewrite <- Hn1, <- Hn2 by exact Hp. reflexivity.
+    - intros H. apply (list_eq_nth lv ov vnone); [congruence|].
+      intros i Hi. rewrite Hl1 in Hi.
+      destruct (dims hs) as [[nS nT] nV] eqn:Ed.
+      destruct (cidx_onto (nS, nT, nV) c i (dims_pos hs _ _ _ Hh Ed) Hi) as [p [Hp <-]].
+      rewrite Hn1, Hn2 by exact Hp. apply H. exact Hp.
+  Qed.
+
+  Lemma insert_non_slice_k_den hs ho c1 lv ko2 :
+    hdr_ok hs -> hdr_ok ho -> dims ho = dims hs -> sdim ho = sdim hs ->
+    (forall c, class_ok (shape ho) c = class_ok (shape hs) c) ->
+    good_k hs (Some (c1, lv)) -> good_k ho ko2 -> widens (kst_class ko2) c1 ->
+    ((forall p, in_dims (dims hs) p -> den_k hs (Some (c1, lv)) p = den_k ho ko2 p) /\
+     insert_non_slice_k veqb vnone hs ho (Some (c1, lv)) ko2 = Ok (Some (c1, lv))) \/
+    (~ (forall p, in_dims (dims hs) p -> den_k hs (Some (c1, lv)) p = den_k ho ko2 p) /\
+     insert_non_slice_k veqb vnone hs ho (Some (c1, lv)) ko2 = Ok None).
+  Proof.
+    intros Hhs Hho Hd Hsd Hoko Hgs Hgo Hw. pose proof Hgs as [Hok1 [Hsl1 Hlen1]].
+    assert (Hok1o : class_ok (shape ho) c1 = true) by (rewrite Hoko; exact Hok1).
+    assert (Hslo : is_slices c1 = true -> sdim ho <> None) by (rewrite Hsd; exact Hsl1).
+    unfold insert_non_slice_k. rewrite (visible_good _ _ Hgs).
+    destruct (changed_class_ok vnone ho ko2 c1 (sdim hs) Hho Hgo Hok1o Hslo Hw) as [ov Eov].
+    rewrite Eov. cbn [bind].
+    pose proof (changed_class_den vnone ho ko2 c1 (sdim hs) ov Hho Hgo Hok1o Hslo Eov) as Hro.
+    pose proof (repr_eq_iff hs ho _ ko2 c1 lv ov Hhs Hd (repr_self _ _ _ Hgs) Hro) as Hiff.
+    destruct (list_eqb_spec veqb veqb_spec lv ov) as [Heq|Hne].
+    - left. split; [apply Hiff; exact Heq | reflexivity].
+    - right. split; [intros H; apply Hne; apply Hiff; exact H | reflexivity].
   Qed.
 End WithV.
